@@ -966,6 +966,34 @@ def rule_r11(prog, res):
               prog, Result)
 
 
+def rule_r12(prog, res):
+    res.rule('R12', 'a default_factory is called for every omitted argument: '
+             'no function that calls it is memoized')
+    n = 0
+    for fn in prog.all_functions():
+        if not fn.module.name.startswith('spyne.'):
+            continue
+        if not any(isinstance(c.func, ast.Attribute) and
+                   c.func.attr == 'default_factory'
+                   for c in calls_in(fn.node)):
+            continue
+        n += 1
+        memo = [unparse(d) for d in fn.node.decorator_list
+                if 'memo' in unparse(d).lower() or 'cache' in
+                unparse(d).lower()]
+        res.ob('R12', fn.where, '%s calls default_factory; decorators %s' % (
+            fn.qualname, [unparse(d) for d in fn.node.decorator_list]),
+            'VIOLATED' if memo else 'ok')
+        if memo:
+            res.finding('R12', '%s|default-factory-memoized' % fn.qualname,
+                        fn.where, '%s is wrapped in %s: the factory runs for '
+                        'the first omitted argument only and every later '
+                        'NullServer call shares that object, while the wire '
+                        'protocols call the factory per request' % (
+                            fn.qualname, memo[0]))
+    res.floor('R12', 'functions that call a default_factory', n, 1)
+
+
 def run(prog, res, tier):
     res.run_rule(rule_r1, prog, res)
     res.run_rule(rule_r2, prog, res)
@@ -978,6 +1006,7 @@ def run(prog, res, tier):
     res.run_rule(rule_r9, prog, res)
     res.run_rule(rule_r10, prog, res)
     res.run_rule(rule_r11, prog, res)
+    res.run_rule(rule_r12, prog, res)
 
 
 _N = 'spyne/server/null.py'
@@ -985,6 +1014,11 @@ _A = 'spyne/application.py'
 _D = 'spyne/descriptor.py'
 
 MUTANTS = [
+    Mutant('null-default-helper-memoized', 'R12', 'fire',
+           'spyne/server/null.py',
+           in_func(None, "\ndef _get_default(cls):\n",
+                   "\n@memoize\ndef _get_default(cls):\n"),
+           'default-factory-memoized'),
     Mutant('nil-message-sized-by-out-message', 'R7', 'fire',
            'spyne/application.py',
            in_func('Application.process_request',
